@@ -59,11 +59,12 @@ const (
 	bHang
 	bLate
 	bSlow
+	bMid // answers at 80% of the endpoint timeout
 )
 
-var behNames = []string{"Answer", "Incomplete", "Fail", "NilResp", "Hang", "Late", "Slow"}
+var behNames = []string{"Answer", "Incomplete", "Fail", "NilResp", "Hang", "Late", "Slow", "Mid"}
 
-func (b beh) waits() bool { return b == bHang || b == bLate || b == bSlow }
+func (b beh) waits() bool { return b == bHang || b == bLate || b == bSlow || b == bMid }
 
 type spec struct {
 	level    string // LProxy | LGin | LMux
@@ -224,8 +225,9 @@ type recorder struct {
 	released  atomic.Bool
 	immMax    atomic.Int64 // latest moment an "at once" behaviour that the model relies on finished
 	bodies    []*body
-	firstSlow int  // index of the first backend without an Answer attempt (sequential: later ones are not called "at once")
-	quiet     bool // stress loop: behave, record nothing
+	firstSlow int         // index of the first backend without an Answer attempt (sequential: later ones are not called "at once")
+	quiet     bool        // stress loop: behave, record nothing
+	midTaint  atomic.Bool // a Mid attempt did not answer where the model places it (slow machine)
 }
 
 func newRecorder(s spec) *recorder {
@@ -331,6 +333,35 @@ func (r *recorder) play(ctx context.Context, be int, b beh) (int, error) {
 		case <-t.C:
 			return 0, nil
 		case <-ctx.Done():
+			return 2, ctx.Err()
+		case <-r.release:
+			r.released.Store(true)
+			return 2, errReleased
+		}
+	case bMid:
+		// answers at 80% of T after its invocation.  The model relies on that answer lying
+		// inside the window (75% of T, 85% of T): when it demonstrably did not (the timer fired
+		// late, or the context ended at a moment the timer should already have fired) the
+		// case says nothing about what is certain and is marked tainted.
+		start := time.Since(r.t0)
+		planned := start + 80*r.s.T/100
+		margin := r.s.T / 40
+		t := time.NewTimer(80 * r.s.T / 100)
+		defer t.Stop()
+		select {
+		case <-t.C:
+			now := time.Since(r.t0)
+			if now > planned+margin || start > margin {
+				r.midTaint.Store(true)
+			}
+			if d, ok := ctx.Deadline(); ok && now+margin > d.Sub(r.t0) && 85*r.s.T/100 <= d.Sub(r.t0) {
+				r.midTaint.Store(true) // too close to a deadline that should be 5% of T away
+			}
+			return 0, nil
+		case <-ctx.Done():
+			if time.Since(r.t0)+margin >= planned {
+				r.midTaint.Store(true)
+			}
 			return 2, ctx.Err()
 		case <-r.release:
 			r.released.Store(true)
@@ -780,7 +811,7 @@ type runner struct {
 // an observation that a stalled process could also produce: run the case again (a real
 // violation shows again)
 func suspicious(r *result) bool {
-	if r.tainted || !r.returned || r.rec.released.Load() {
+	if r.tainted || r.rec.midTaint.Load() || !r.returned || r.rec.released.Load() {
 		return true
 	}
 	r.rec.mu.Lock()
@@ -1274,7 +1305,7 @@ func (r *result) data() obsData {
 		return calls[i].inv < calls[j].inv
 	})
 	o := obsData{Returned: r.returned, Ret: int64(r.ret), Keys: r.keys, Leaked: r.leaked, Released: rec.released.Load(),
-		Tainted: r.tainted, Panic: r.panicked, BatchLevel: r.batchLevel}
+		Tainted: r.tainted || rec.midTaint.Load(), Panic: r.panicked, BatchLevel: r.batchLevel}
 	for _, c := range calls {
 		o.Calls = append(o.Calls, callData{Be: c.be, Inv: int64(c.inv), HasDl: c.hasDl, Dl: int64(c.dl), DoneAfter: c.doneAfter})
 	}
@@ -1491,6 +1522,39 @@ func generate(cfg out.Config, r *rng.R) []spec {
 	}
 	add(spec{level: "LProxy", T: T1, seq: true, http: true, stress: stress, group: "corpus-stress",
 		backends: [][]beh{{bAnswer, bAnswer, bAnswer}, {bAnswer, bAnswer, bAnswer}}})
+
+	// 1a. the window between the 75% of a concurrent stage and the 85% of the merge: a backend that
+	// answers at 80% of T next to siblings that hang with concurrent_calls 2..3 (their stage
+	// reports context.DeadlineExceeded at 75%) must still be delivered.  T = 1 s: the window
+	// is 50 ms on either side.
+	TW := time.Second
+	M := bMid
+	for _, s := range []spec{
+		{level: "LProxy", T: TW, backends: [][]beh{{M}, {bHang, bHang}}},
+		{level: "LProxy", T: TW, backends: [][]beh{{M}, {bHang, bHang, bHang}}},
+		{level: "LProxy", T: TW, backends: [][]beh{{bHang, bHang}, {M}, {bAnswer}}},
+		{level: "LGin", T: TW, backends: [][]beh{{M}, {bHang, bHang}}},
+		{level: "LMux", T: TW, backends: [][]beh{{M}, {bHang, bHang}}},
+		{level: "LMux", T: TW, parent: TW + time.Second, backends: [][]beh{{M}, {bHang, bHang, bHang}}},
+		{level: "LMux", T: TW, parent: TW / 2, backends: [][]beh{{M}, {bHang, bHang}}},
+		{level: "LProxy", T: TW, backends: [][]beh{{M}, {bHang}}},
+		{level: "LProxy", T: TW, backends: [][]beh{{M}, {bFail, bHang}}},
+		{level: "LProxy", T: TW, http: true, backends: [][]beh{{M}, {bHang, bHang}}},
+		{level: "LGin", T: TW, backends: [][]beh{{M}}},
+		{level: "LProxy", T: TW, backends: [][]beh{{M, M}, {bHang, bHang}}},
+	} {
+		s.group = "corpus-window"
+		add(s)
+	}
+	sib := [][]beh{{bAnswer}, {bHang}, {bHang, bHang}, {bHang, bHang, bHang}, {bFail, bHang}, {bLate, bLate}}
+	for _, a := range sib {
+		add(spec{level: "LProxy", T: TW, backends: [][]beh{{M}, append([]beh(nil), a...)}, group: "exhaustive-window"})
+		add(spec{level: "LGin", T: TW, backends: [][]beh{append([]beh(nil), a...), {M}}, group: "exhaustive-window"})
+		add(spec{level: "LMux", T: TW, backends: [][]beh{{M}, append([]beh(nil), a...)}, group: "exhaustive-window"})
+		for _, b := range sib {
+			add(spec{level: "LProxy", T: TW, backends: [][]beh{append([]beh(nil), a...), {M}, append([]beh(nil), b...)}, group: "exhaustive-window"})
+		}
+	}
 
 	// 1b. instance reuse, the telling orders: ONE pipeline / handler instance serves the requests
 	// of a sequence one after the other (a context, timer or cancel function created once per
